@@ -10,7 +10,8 @@ use super::ast::*;
 pub struct ParseInfo {
     /// the string calls a function name RFC 9535 does not define (outside C06/C07 by the property text)
     pub unknown_fn: bool,
-    /// an integer-form number literal outside the I-JSON range, or a literal that overflows f64
+    /// an integer-form number literal outside the I-JSON range (C06 speaks of "integers within the I-JSON range",
+    /// C07 of "out-of-range integers": either outcome is accepted for such a literal)
     pub big_literal: bool,
     /// number of function calls (any name)
     pub fn_calls: u32,
@@ -449,9 +450,7 @@ impl<'a> P<'a> {
         self.i = k;
         let raw: String = self.s[st..k].iter().collect();
         let val: f64 = raw.parse().map_err(|_| self.err("bad number"))?;
-        if !val.is_finite() {
-            self.info.big_literal = true;
-        }
+        // a fraction / exponent literal that overflows f64 is still a well-formed number of the grammar
         if int_form {
             let digits = raw.trim_start_matches('-');
             if digits.len() > 16 || digits.parse::<i64>().map_or(true, |v| v > MAX_INT) {
